@@ -74,6 +74,14 @@ def success_case(asm, acc, case):
             lines = ['include GD32VF103.asm'] + lines
         srcdir = os.path.join(root, 'src')
         os.makedirs(srcdir)
+        spanning = case['idx'] % 2 == 0 and not case['defs']
+        if spanning:
+            # a project spread over two directories: the file in src/lib names its own neighbour `common.asm`, not the one beside main.asm
+            os.makedirs(os.path.join(srcdir, 'lib'))
+            open(os.path.join(srcdir, 'common.asm'), 'w').write('COMMON_ID = 11\n')
+            open(os.path.join(srcdir, 'lib', 'common.asm'), 'w').write('COMMON_ID = 22\n')
+            open(os.path.join(srcdir, 'lib', 'part.asm'), 'w').write('include common.asm\ndb COMMON_ID\nalign 2\n')
+            lines = ['include lib/part.asm'] + lines
         main = os.path.join(srcdir, 'main.asm')
         open(main, 'w').write('\n'.join(lines) + '\n')
         compress = case['compress']
@@ -132,6 +140,11 @@ def success_case(asm, acc, case):
         got = open(outp, 'rb').read() if os.path.exists(outp) else None
         if got != ref.out:
             core.add_viol(acc, 'CLI run [%s]: -o file holds %s bytes, the assembled program has %d' % (opts, len(got) if got is not None else 'no', len(ref.out)), case, {})
+        elif spanning:
+            acc['ctr']['two_directory_projects'] += 1
+            if got[:2] != b'\x16\x00':
+                core.add_viol(acc, 'CLI run [%s]: the -o file starts with %s; src/lib/part.asm includes its neighbour common.asm (COMMON_ID = 22) and emits `db COMMON_ID`, `align 2` first' % (
+                    opts, got[:2].hex()), case, {})
         if labp:
             text = open(labp).read()
             want = ''.join('%s 0x%08x\n' % (k, v) for k, v in ref.labels.items())
